@@ -2173,6 +2173,12 @@ CG_LITERALS = [("0", 0), ("0.0", 0.0), ("-0.0", -0.0), ("pi", PI), ("-pi/2", -PI
                ("3", 3), ("1e-300", 1e-300), ("2*pi/3", 2 * PI / 3), ("0.1234567890123456", 0.1234567890123456), ("pi/4", PI / 4)]
 CG_PARAM_NAMES = ["a", "b", "theta", "lam", "x0", "t", "beta", "w"]     # never a name that eval() could resolve, never containing "pi"
 CG_QUBIT_NAMES = ["q0", "q1", "q2", "r", "s"]
+# Adversarial formal-parameter / qubit-argument names.  By the documented grammar every identifier that is not a
+# reserved word and not exactly `pi` is a legal formal name, so the reader must treat all of these as plain
+# placeholders: names equal to / containing constants (tau, euler, e, pi2, xpi, phi, inf, nan, gamma) and names that
+# exist in the python scope in which QASMParser._get_gate calls eval() (np, arg, max).  Nothing here is decided by
+# probing the implementation: a name the reader mishandles is a finding (qasm:custom_gate:*:formal_name=<name>).
+CG_ADVERSARIAL = ["tau", "euler", "e", "pi2", "phi", "theta", "lambda_", "np", "inf", "nan", "gamma", "tau1", "xpi", "arg", "max"]
 
 
 def cg_builtin_table():
@@ -2281,6 +2287,18 @@ def cg_fixed_programs():
                                             "calls": [{"gate": "carol", "args": [L(t1), L(t2)], "q": [3, 0, 2]},
                                                       {"gate": "bob", "args": [L(t2), L(t1)], "q": [1, 3]},
                                                       {"gate": "bell", "args": [], "q": [2, 1]}]}))
+    for nm in CG_ADVERSARIAL:
+        drift = {"name": "drift", "params": [nm, "alpha"], "qubits": ["a", "b"],
+                 "body": [{"gate": "rz", "args": [F(nm)], "q": ["a"]}, {"gate": "rx", "args": [F("alpha")], "q": ["b"]},
+                          {"gate": "cx", "args": [], "q": ["a", "b"]}]}
+        wrap = {"name": "wrap", "params": ["alpha", nm], "qubits": ["b", "a"],
+                "body": [{"gate": "drift", "args": [F(nm), L("0.9")], "q": ["a", "b"]}, {"gate": "u1", "args": [F(nm)], "q": ["b"]}]}
+        out.append((f"formal_{nm}", {"n": 3, "defs": [drift, wrap],
+                                     "calls": [{"gate": "drift", "args": [L("0.3"), L("-1.25")], "q": [1, 0]},
+                                               {"gate": "wrap", "args": [L("0.5"), L("0.75")], "q": [2, 1]}]}))
+        qd = {"name": "onq", "params": ["t"], "qubits": [nm, "b"],
+              "body": [{"gate": "ry", "args": [F("t")], "q": [nm]}, {"gate": "cz", "args": [], "q": ["b", nm]}]}
+        out.append((f"qubitname_{nm}", {"n": 2, "defs": [qd], "calls": [{"gate": "onq", "args": [L("0.3")], "q": [1, 0]}]}))
     out.append(("no_params", {"n": 3, "defs": [plain], "calls": [{"gate": "bell", "args": [], "q": [2, 0]}, {"gate": "bell", "args": [], "q": [0, 1]}]}))
     return out
 
@@ -2292,8 +2310,10 @@ def cg_random_program(rng, table):
     defs = []
     for di in range(rng.randint(1, 4)):
         nq = rng.randint(1, 3)
-        params = rng.sample(CG_PARAM_NAMES, rng.randint(0, 3))
-        qubits = rng.sample(CG_QUBIT_NAMES, nq)
+        pool = CG_PARAM_NAMES + (CG_ADVERSARIAL if rng.random() < 0.5 else [])
+        params = rng.sample(pool, rng.randint(0, 3))
+        qpool = [x for x in CG_QUBIT_NAMES + (CG_ADVERSARIAL if rng.random() < 0.3 else []) if x not in params]
+        qubits = rng.sample(qpool, nq)
         body = []
         for _ in range(rng.randint(1, 4)):
             cands = [d for d in defs if len(d["qubits"]) <= nq]
@@ -2333,6 +2353,56 @@ def cg_ms_safe(prog, table):
         return False
 
 
+def cg_rename(prog, di, old, new, what):
+    """the same program with one formal parameter (what='param') or qubit argument (what='qubit') of definition di renamed"""
+    p = json.loads(json.dumps(prog))
+    d = p["defs"][di]
+    if what == "param":
+        d["params"] = [new if x == old else x for x in d["params"]]
+        for it in d["body"]:
+            for a in it["args"]:
+                if a.get("fwd") == old:
+                    a["fwd"] = new
+    else:
+        d["qubits"] = [new if x == old else x for x in d["qubits"]]
+        for it in d["body"]:
+            it["q"] = [new if x == old else x for x in it["q"]]
+    return p
+
+
+def cg_rename_all(prog, names):
+    p = prog
+    for di, d in enumerate(prog["defs"]):
+        for nm in names:
+            if nm in d["params"]:
+                p = cg_rename(p, di, nm, "zz_" + nm, "param")
+            if nm in d["qubits"]:
+                p = cg_rename(p, di, nm, "zz_" + nm, "qubit")
+    return p
+
+
+def cg_culprit_name(prog, cat):
+    """is the failure caused by the NAME of a formal parameter / qubit argument?  Renaming names to neutral ones does
+    not change the meaning of a program: if the failure goes away when all adversarial names are renamed, a name is the
+    cause; the culprit is a name that alone (all others renamed) still makes the program fail."""
+    used = sorted({nm for d in prog["defs"] for nm in d["params"] + d["qubits"] if nm in CG_ADVERSARIAL})
+    if not used or cg_outcome(cg_rename_all(prog, used))[0] != "ok":
+        return None
+    for nm in used:
+        alone = cg_rename_all(prog, [x for x in used if x != nm])
+        if cg_outcome(alone)[0] != "ok":
+            as_param = any(nm in d["params"] for d in prog["defs"])
+            if as_param and cg_outcome(cg_rename_all(alone, []))[0] != "ok":
+                # parameter or qubit role?  rename only the parameter occurrences
+                p2 = alone
+                for di, d in enumerate(alone["defs"]):
+                    if nm in d["params"]:
+                        p2 = cg_rename(p2, di, nm, "zz_" + nm, "param")
+                return ("formal_name=" if cg_outcome(p2)[0] == "ok" else "qubit_name=") + nm
+            return "qubit_name=" + nm
+    return "formal_name=" + "+".join(used)
+
+
 def cg_key(prog, cat):
     """shrink to one top-level call, then name the failure by whether a zero-valued argument is involved"""
     small = prog
@@ -2341,6 +2411,9 @@ def cg_key(prog, cat):
         if cg_outcome(cand)[0] == cat:
             small = cand
             break
+    culprit = cg_culprit_name(small, cat)
+    if culprit:
+        return f"qasm:custom_gate:{cat}:{culprit}", small
     table = cg_builtin_table()
     zero = False
 
